@@ -60,6 +60,25 @@ impl<'a> ConfigExtractor<'a> {
         }
     }
 
+    /// A configuration value that becomes a program counter
+    pub fn check_address(&self, key: &str, address: i64) -> CoreResult<i64> {
+        if (0..=0x10000).contains(&address) {
+            Ok(address)
+        } else {
+            let span = self
+                .try_get_kvp(key)
+                .map(|(k, v)| k.span.merge(v.span))
+                .unwrap_or(self.config_span);
+            Err(Diagnostic::error()
+                .with_message(format!(
+                    "'{}' must lie between 0 and $10000, not {}",
+                    key, address
+                ))
+                .with_labels(vec![span.to_label()])
+                .into())
+        }
+    }
+
     fn to_identifier(&self, key: &str, name: String) -> CoreResult<Identifier> {
         if name.contains('.') {
             let span = self
